@@ -2,6 +2,7 @@
    (`qlayer` / `qcell`, `kerasLayer` / `kerasCell`) under the concrete exact-rational interpretation -/
 import QKV.Drv.Json
 import QKV.Model.LayersConcrete
+import QKV.Model.LayerQObjects
 open Lean QKV QKV.Drv QKV.Layers
 
 def tensorOfJson (j : Json) : Except String Tensor := do
@@ -129,8 +130,46 @@ def dropinRhs (cls : Cls) (c : LCfg) (E : Env Tensor) : Tensor :=
     actOf c E (eval concrete P' (kerasLayer cls c))
   | _ => actOf c E (eval concrete (preEnv c E) (kerasLayer cls c))
 
+/-! op `ctor`: the constructors' quantizer-OBJECT plumbing (`Model/LayerQObjects.lean`): a heap of quantizer
+    objects (id = position) and a list of layers constructed one after the other over it -/
+
+def optNatOf (j : Json) : Option Nat :=
+  match j with
+  | .null => none
+  | v => v.getNat?.toOption
+
+def qstateOfJson (j : Json) : Except String QObj.QState := do
+  let alpha := match j.getObjVal? "alpha" with
+    | .ok v => optNatOf v | .error _ => none
+  pure { kind := ← getNat j "kind", hasSetTrainable := ← getBool j "has", setsSymmetric := ← getBool j "sets_symmetric",
+         alpha := alpha, symmetric := ← getBool j "symmetric" }
+
+def qstateToJson (q : QObj.QState) : Json :=
+  Json.mkObj [("kind", Json.num (q.kind : Int)), ("has", Json.bool q.hasSetTrainable),
+              ("sets_symmetric", Json.bool q.setsSymmetric),
+              ("alpha", match q.alpha with | some n => Json.num (n : Int) | none => Json.null),
+              ("symmetric", Json.bool q.symmetric)]
+
+def handleCtor (j : Json) : Except String Json := do
+  let hs ← (← (← j.getObjVal? "heap").getArr?).toList.mapM qstateOfJson
+  let dflt : QObj.QState := { kind := 0, hasSetTrainable := false, setsSymmetric := false, alpha := none, symmetric := false }
+  let h0 : QObj.Heap := fun o => hs.getD o dflt
+  let ls ← (← (← j.getObjVal? "layers").getArr?).toList.mapM fun l => do
+    let args := match l.getObjVal? "args" with
+      | .ok (.arr a) => a.toList.map optNatOf
+      | _ => []
+    pure ((← getNat l "n"), (← getNatList l "train"), args)
+  let r := QObj.constructAll ls h0
+  let layers := r.1.map fun L =>
+    Json.mkObj [("internal", optNats L.internal), ("quantizers", optNats L.quantizers),
+                ("reported_eq_applied", Json.bool ((List.range L.internal.length).all fun s =>
+                   L.reportedState r.2 s == L.appliedState r.2 s))]
+  pure <| Json.mkObj [("layers", Json.arr layers.toArray),
+                      ("heap", Json.arr ((List.range hs.length).map fun o => qstateToJson (r.2 o)).toArray)]
+
 def handle (j : Json) : Except String Json := do
   let op ← getStr j "op"
+  if op == "ctor" then handleCtor j else
   let c ← cfgOfJson (← j.getObjVal? "cfg")
   match op with
   | "layer" =>
